@@ -2,6 +2,10 @@
 #include "../../engine/rcglue.hpp"
 #include "../../engine/latrack.hpp"
 #include <strings.h>
+#include <fcntl.h>
+#include <unistd.h>
+#include <dirent.h>
+#include <sys/stat.h>
 #include <string.h>
 
 extern "C" {
@@ -185,6 +189,29 @@ struct Interp {
         };
         rec(0);
     }
+    // %dirscan(dir) on a directory built to order: `count` regular files with names of `namelen` characters (plus `extra`
+    // one-character names), so that the listing fills the 20 kB result buffer to any chosen byte
+    void dirscan(const Op &op) {
+        long count = std::min<long>(std::max<long>(op.i(0), 0), 120), namelen = std::min<long>(std::max<long>(op.i(1), 1), 255), extra = std::min<long>(std::max<long>(op.i(2), 0), 40);
+        std::string dir = config().scratch_dir + "/ds" + std::to_string((long)getpid()) + "_" + std::to_string(ndirs++);
+        mkdir(dir.c_str(), 0700);
+        auto touch = [&](const std::string &name) { int fd = open((dir + "/" + name).c_str(), O_CREAT | O_WRONLY, 0600); if (fd >= 0) close(fd); };
+        for (long i = 0; i < count; i++) { char num[16]; snprintf(num, sizeof num, "%03ld", i); std::string name = num; name.resize((size_t)namelen, 'n'); touch(name); }
+        for (long i = 0; i < extra; i++) touch(std::string(1, (char)('A' + i)));
+        long total = count * (std::max<long>(namelen, 3) + 1) + extra * 2;
+        if (total >= 20478 && total <= 20482) ctx.label("dirscan:listing-fills-the-buffer-to-the-byte");
+        else if (total > 20482) ctx.label("dirscan:listing-larger-than-the-buffer");
+        else ctx.label("dirscan:listing-fits");
+        safety("%dirscan(" + dir + ")");
+        safety("x %dirscan(" + dir + ") y");
+        if (DIR *d = opendir(dir.c_str())) {   // (system() is interposed in this binary)
+            while (dirent *e = readdir(d)) if (e->d_name[0] != '.') unlink((dir + "/" + e->d_name).c_str());
+            closedir(d);
+        }
+        rmdir(dir.c_str());
+        nontrivial++;
+    }
+    long ndirs = 0;
     void run(const Case &c) {
         ht_install();
         c10_names(w.appname.c_str(), w.version.c_str());   // not tracked: process-wide message state
@@ -199,6 +226,7 @@ struct Interp {
             const Op &op = c[at];
             if (op.name == "exp") { exact(op.s(0)); label_exact(op.s(0)); }
             else if (op.name == "safe") safety(op.s(0));
+            else if (op.name == "dirs") dirscan(op);
             else if (op.name == "batch") { is_batch = true; batch(op); }
             else if (op.name == "env") continue;
             else ctx.fail("harness", "unknown op " + op.name);
@@ -300,6 +328,14 @@ rc::Gen<Case> gen_safe() {
         long n = *sized_len(14);
         for (long i = 0; i <= n; i++) s += *rc::gen::elementOf(bits);
         c.push_back(mk("safe", {populated}, {s}));
+        if (*range(0, 29) == 0) {
+            // 80 names of 255 characters make exactly 20480 bytes of listing; walk around that point
+            long k = *range(0, 6);
+            static const long shapes[7][3] = {{80, 255, 0}, {79, 255, 0}, {79, 255, 40}, {81, 255, 3}, {3, 10, 5}, {0, 1, 0}, {100, 200, 30}};
+            long extra = k == 2 ? *range(100, 140) : shapes[k][2];
+            c.push_back(mk("dirs", {shapes[k][0], shapes[k][1], k == 2 ? extra - 100 + 0 : extra}));
+            if (k == 2) c.back().ints[2] = *range(0, 40);
+        }
         return c;
     });
 }
